@@ -161,17 +161,22 @@ def extract_region(repo, relpath, start_re, end_re):
 
 # ---------------------------------------------------------------- lowering
 
-def apply_rules(text, rules, what=''):
+def apply_rules(text, rules, what='', missed=None):
     """rules: list of (pattern, replacement, min_fires) or (pattern, replacement, min_fires, max_fires).
-    Every rule must fire at least min_fires times, else ExtractionError."""
+    A rule with min_fires >= 1 is expected to fire.  When `missed` is a list, a rule that does not fire is RECORDED there and
+    the text is left exactly as /repo has it (it then either fails to compile as C -> undecided, or is verified as written);
+    otherwise ExtractionError.  A rule firing more often than max_fires is always an ExtractionError."""
     fired = []
     for r in rules:
         pat, rep, mn = r[0], r[1], min(r[2], 1)     # 'must fire' means at least once; exact counts made harmless refactors undecidable
         mx = r[3] if len(r) > 3 else None
         text, n = re.subn(pat, rep, text, flags=re.S)
-        if n < mn or (mx is not None and n > mx):
-            raise ExtractionError('%s: lowering rule /%s/ fired %d times (expected %s%s)'
-                                  % (what, pat, n, '>=%d' % mn, '' if mx is None else ', <=%d' % mx))
+        if mx is not None and n > mx:
+            raise ExtractionError('%s: lowering rule /%s/ fired %d times (expected <=%d)' % (what, pat, n, mx))
+        if n < mn:
+            if missed is None:
+                raise ExtractionError('%s: lowering rule /%s/ fired %d times (expected >=%d)' % (what, pat, n, mn))
+            missed.append('%s: lowering rule /%s/ did not fire; the text is taken as /repo has it' % (what, pat))
         fired.append((pat, n))
     return text, fired
 
